@@ -173,10 +173,13 @@ Definition fac_flat (f : fac) : Prop :=
   | FacInst _ => False
   end.
 
-(* the default of sp in class k is a non-reference or is built by a factory of scalars *)
+(* the default of sp in class k is a non-reference (possibly overridden by a plain subclass)
+   or is built by a factory of scalars *)
 Definition default_ok (k : cls) (sp : attr_spec) : Prop :=
-  assoc (a_name sp) (c_overrides k) = None /\ nonref (a_default sp) /\
-  match a_factory sp with Some f => fac_flat f | None => True end.
+  match assoc (a_name sp) (c_overrides k) with
+  | Some v => nonref v
+  | None => nonref (a_default sp) /\ match a_factory sp with Some f => fac_flat f | None => True end
+  end.
 
 Lemma nonref_loose h v : nonref v -> loose h v.
 Proof. intro H. destruct v; simpl; auto. exfalso. eapply H; reflexivity. Qed.
@@ -204,7 +207,10 @@ Section Defaults.
     default_ok k sp -> astable F ->
     T (IF ct F) (lookup_default_value ct rec sp k) (fun d h => IF ct F h /\ loose h d) (IF ct F).
   Proof.
-    intros (Ho & Hd & Hf) SF. unfold lookup_default_value. rewrite Ho. unfold default_value.
+    intros Hdo SF. unfold lookup_default_value. unfold default_ok in Hdo.
+    destruct (assoc (a_name sp) (c_overrides k)) as [ov|].
+    { intros s Hs. rewrite (protect_nonref _ s Hdo). split; auto. now apply nonref_loose. }
+    destruct Hdo as [Hd Hf]. unfold default_value.
     destruct (a_factory sp) as [f|].
     - unfold run_factory. eapply T_bind; [apply T_hpure; [apply hpure_tick|auto]|]. intros ?.
       assert (Al : forall o, shape o < 3 -> norefs o ->
@@ -329,7 +335,8 @@ Section Ctor.
   (* a class that the constructor theorem covers: flat, its own metadata, no spec parent,
      no __post_init__, leaf attributes with scalar / factory-of-scalars defaults *)
   Definition ctor_class (c : cid) (k : cls) : Prop :=
-    lookup_cls ct c = Some k /\ flat_class k /\ c_owner k = c /\ tl (c_mro k) = [] /\
+    lookup_cls ct c = Some k /\ flat_class k /\
+    (exists ko, lookup_cls ct (c_owner k) = Some ko /\ tl (c_mro ko) = []) /\
     oqfn (c_post_init k) /\
     forall sp, In sp (c_attrs k) -> leaf_attr sp /\ default_ok k sp.
 
@@ -364,24 +371,24 @@ Section Ctor.
   Lemma init_inv fuel c k l kw :
     ctor_class c k ->
     T (fun h => (Inv h /\ kw_flat kw h) /\ is_inst l c h)
-      (init_ ct (exec ct fuel) c l kw) (fun _ h => Inv h) Inv.
+      (init_ ct (exec ct fuel) (c_owner k) l kw) (fun _ h => Inv h) Inv.
   Proof.
-    intros (Hk & Fc & Ho & Hmro & Hpi & Hat).
+    intros (Hk & Fc & (ko & Hko & Hmro) & Hpi & Hat).
     set (G := fun h => kw_flat kw h /\ is_inst l c h).
     assert (SG : xstable G) by (apply xstable_and; [apply xstable_kw_flat|apply xstable_is_inst]).
     assert (GE : forall h, IF ct G h -> Inv h) by (intros h [H _]; exact H).
     eapply T_pre with (P := IF ct G); [intros h [[I K] N]; split; [exact I|split; auto]|].
     unfold init_.
     eapply T_bind; [apply T_cls_of; exact GE|]. intros ks. apply T_pull. intro Hks.
-    rewrite Hk in Hks. inversion Hks; subst ks.
-    destruct (negb (init_wrapper_ok k kw)); [apply T_fail; exact GE|].
+    rewrite Hko in Hks. inversion Hks; subst ks.
+    destruct (negb (init_wrapper_ok ko kw)); [apply T_fail; exact GE|].
     eapply T_bind; [apply T_read_inst; exact GE|]. intros [c0 d0]. cbn [fst snd].
     eapply T_pre with (P := fun h => IF ct G h /\ c0 = c).
     { intros h [[I [K [d N]]] N0]. rewrite N in N0. inversion N0; subst. split; auto. split; auto. split; auto. exists d0; auto. }
     apply T_pull. intros ->.
     eapply T_bind; [apply T_cls_of; exact GE|]. intros im. apply T_pull. intro Him.
     rewrite Hk in Him. inversion Him; subst im.
-    cbv zeta. rewrite Ho, Nat.eqb_refl.
+    cbv zeta. rewrite Nat.eqb_refl.
     (* the flag and the (empty) chain of parents *)
     eapply T_bind with (Q := fun kw1 h => IF ct G h /\ kw1 = kw).
     { rewrite Hmro. cbn [rev foldM].
@@ -396,7 +403,7 @@ Section Ctor.
     eapply T_bind with (Q := fun _ h => IF ct G h).
     - (* the attributes *)
       apply T_iterM. intros sp Hsp. destruct (Hat sp Hsp) as [Hl Hd].
-      destruct (negb (a_init sp) || negb (a_owner sp =? c)); [apply T_ret; auto|].
+      destruct (negb (a_init sp) || negb (a_owner sp =? c_owner k)); [apply T_ret; auto|].
       assert (Dn : a_dnc sp = false) by (destruct Fc as (_ & _ & Fa); apply Fa; auto).
       eapply T_bind with
         (Q := fun (r : val * bool) h => IF ct G h /\ (if snd r then flat_val h (fst r) else loose h (fst r))).
@@ -438,7 +445,7 @@ Section Ctor.
   Lemma exec_init_inv fuel c k l kw :
     ctor_class c k ->
     T (fun h => (Inv h /\ kw_flat kw h) /\ is_inst l c h)
-      (exec ct fuel (KInit c l kw)) (fun _ h => Inv h) Inv.
+      (exec ct fuel (KInit (c_owner k) l kw)) (fun _ h => Inv h) Inv.
   Proof.
     intro H. destruct fuel as [|f]; [apply T_fail; tauto|]. rewrite exec_S. now apply (init_inv f c k).
   Qed.
@@ -450,7 +457,7 @@ Section Ctor.
     match pos with Some v => flat_val (heap s) v | None => True end ->
     Inv (heap (snd (construct ct (exec ct fuel) c pos kw s))).
   Proof.
-    intros Hc I K Kp. pose proof Hc as (Hk & Fc & Ho & _).
+    intros Hc I K Kp. pose proof Hc as (Hk & Fc & _).
     unfold construct.
     erewrite bind_ok'; [|unfold cls_of; rewrite Hk; reflexivity].
     assert (Pure : forall s0 (m : M unit) (R : M val), heap s0 = heap s -> hpure m ->
@@ -461,7 +468,7 @@ Section Ctor.
       - rewrite Hp, Es. exact I. }
     assert (Tail : forall kw', kw_flat kw' (heap s) -> forall s', heap s' = heap s ->
                Inv (heap (snd ((l <- alloc (OInst c []) ;; exec ct fuel (KInit (c_owner k) l kw') ;;; ret (VRef l)) s')))).
-    { intros kw' K' s' Es. unfold bind at 1. unfold alloc. rewrite Es. rewrite Ho.
+    { intros kw' K' s' Es. unfold bind at 1. unfold alloc. rewrite Es.
       set (l := length (heap s)).
       set (s1 := mkst (heap s ++ [OInst c []]) (ncalls s') (fail_at s')).
       eapply (T_run_then _ _ _ _ Inv _ s1 (exec_init_inv fuel c k l kw' Hc)); auto.
